@@ -24,11 +24,11 @@ def run(prop, tier):
     acc = mcsched.run_jobs(prop, tier, jobs)
     # existential clause: readers are shared - in (R,R,W) some schedule must have two readers inside at the same time
     for j in jobs:
-        if j["script"] == ("R", "R", "W") and not (acc.exists.get(j["name"], 0) & 1) and not acc.viols:
+        if j["script"] == ("R", "R", "W") and not (acc.exists.get(j["name"], 0) & 1) and not acc.viols and not acc.engine_errors:
             acc.viols.append(dict(t="viol", p=prop, sig="readers-not-shared@%s" % j["name"].split("[")[1].split("]")[0], job=j["name"], replay="",
                                   desc="no explored schedule of two readers and a writer ever had both readers inside the lock at the same time: readers are not shared"))
     extra = {}
-    if tier == "thorough" and not acc.viols:
+    if tier == "thorough" and not acc.viols and not acc.engine_errors:
         extra = mcsched.conformance(acc, [j for j in jobs if j["args"][0] not in ("values", "barrier")])
     cov = mcsched.coverage(acc, "stateless DFS over all interleavings with <= 2 (quick) / 3 preemptions and <= 1 spurious condition wake-up (and every choice of the waiter a signal wakes) "
                                 "of 2-4 real threads running scripts over reader/writer lock, trylock, unlock on the real PRWLock, for the posix model (over the pthread rwlock model) and "
